@@ -55,7 +55,7 @@ def run(ctx):
     ctx.rule = ("TLC enumerates configurations (as C09/C10) for read_namespace and read_files with every target subset and "
                 "every distinguished body; every configuration is materialised and read; for each definition outside the "
                 "closure (in lookup directories, and for read_files also non-target files of the target root) the run is "
-                "repeated with six replacement texts and the projection (types, links, or error class / path / line, print "
+                "repeated with eight replacement texts (incl. an empty file) and the projection (types, links, or error class / path / line, print "
                 "events) must not change. Non-trivial = configuration with at least two definitions and one reference")
     ctx.assumptions = ["TLC's evaluation of the specification", "malformed FILE NAMES in lookup directories may be reported "
                        "(inspected at listing time): not part of the replacements"]
@@ -71,7 +71,7 @@ def run(ctx):
         ctx.exhaustive = False
     repo_suite_reader_trace(ctx)
     ctx.sample({"targets": ["d1/a/X.0.1"], "outside": "d1/a/Y.0.1 (same root, not a target, not referenced)",
-                "replacements": ["garbage", "assertfail", "nomode", "print", "service", "badref"]})
+                "replacements": ["garbage", "assertfail", "nomode", "print", "service", "badref", "empty", "blank"]})
 
 def replay(ctx, rec):
     print("replay: re-run ./check %s --tier %s --seed %s (cases are enumerated by TLC)" % (ctx.pid, rec.get("tier"), rec.get("seed")))
